@@ -71,7 +71,7 @@ var c18BoundsExceptions = map[string]string{
 }
 
 func checkC18(r *core.Run) {
-	r.Rule("R-C18-bounds", "every index, slice bound and allocation size that is derived from message payload bytes is entailed (linear arithmetic, no wrap-around) by the guards that dominate it, in every function reachable from the message dispatch with payload-derived arguments")
+	r.Rule("R-C18-bounds", "every index, slice bound and allocation size that is derived from message payload bytes is entailed (linear arithmetic, no wrap-around) by the guards that dominate it, in every function reachable from the message dispatch with payload-derived arguments, and in the script-walking helpers that count signature operations of received transactions and blocks outside any recover scope")
 	r.Rule("R-C18-locks", "in every function reachable from the message dispatch, a mutex acquired is released on every return, never re-acquired while held, and no explicit panic occurs while it is held without a deferred release")
 	r.Rule("R-C18-nil", "the session key (aesData) exists only after an authenticated handshake, but the 'encrypted' bit of a message header is set by the peer: every dereference of the key is preceded by a nil test of it, in the same function or at every call site")
 	r.Explain = "Static: SSA-level lock-set dataflow and linear bounds entailment over the closure of the peer message dispatch; check/use rule for the optional session key."
@@ -100,6 +100,24 @@ func checkC18(r *core.Run) {
 	}
 	ba := an.NewBoundsAnalysis(p, cfg)
 	ba.Root(run, nil)
+	// scripts of received transactions and blocks are also walked outside the connection's goroutine and
+	// outside any recover scope (signature-operation counting on the acceptance paths of the pool and the
+	// chain): the script-walking helpers are analysed with their script argument taken as peer bytes
+	for _, rt := range []struct {
+		fn     string
+		params []int
+	}{
+		{"lib/btc.GetOpcode", []int{0}}, {"lib/btc.GetSigOpCount", []int{0}}, {"lib/btc.GetP2SHSigOpCount", []int{0}},
+		{"lib/btc.IsWitnessProgram", []int{0}}, {"lib/btc.WitnessSigOps", []int{1, 2}}, {"lib/btc.IsPushOnly", []int{0}},
+		{"lib/btc.IsPayToScript", []int{0}}, {"lib/btc.IsP2SH", []int{0}}, {"lib/btc.(*Tx).CountWitnessSigOps", []int{2}},
+	} {
+		fn := p.Func(rt.fn)
+		if fn == nil {
+			r.Fail("R-C18-bounds", "script-helper/"+rt.fn, "-", "not found")
+			continue
+		}
+		ba.Root(fn, rt.params)
+	}
 	seen := map[string]int{}
 	sort.SliceStable(ba.Obs, func(i, j int) bool {
 		a, b := ba.Obs[i], ba.Obs[j]
